@@ -199,6 +199,10 @@ def run_product(st, opts):
         ops, names = [x, y], ["x", "y"]
         gshape, gkind = N, "tt"
         want = ("tt", N, [])
+    if cfg["data"] == "zero":
+        # the second operand is exactly zero: the exact product is the zero tensor
+        ops[1] = tt.zeros(list(zip(N, K)) if op == "amen_mm" else N, dtype=dt)
+        ref = torch.zeros_like(ref)
     sc = cfg.get("scale", "unit")
     if sc != "unit":
         # the same mathematical operands, badly scaled: one non-final core of the first operand times 1e5, or everything tiny
@@ -259,6 +263,8 @@ def run_product(st, opts):
             continue
         err = rel_err(project.dense(Y.cores).reshape(ref.shape), ref)
         stats["err_over_eps_max"] = max(stats.get("err_over_eps_max", 0), err / eps)
+        if cfg["data"] == "zero":
+            err = err / max(1.0, torch.linalg.norm(project.dense(ops[0].cores)).item())       # (absolute, relative to the non-zero operand)
         if err > TOL["C11"] * eps + 1e3 * U64:
             problems.append(mk_problem("C11", "accuracy", cfg, "call %d: relative error %.3g > %g*eps (eps=%g, result ranks %s)" % (
                 it + 1, err, TOL["C11"], eps, Y.R), st))
